@@ -47,10 +47,32 @@ def fresh_constructions(fx, variants):
     """(body, node, parents, variant) for Struct literals of the given SVD variants that are not rebuilds of a matched node of
     the same variant (enclosing arm / let-else pattern of that variant)."""
     out = []
+    # lifting passes are read together with the private helpers nested next to their callbacks: a helper that is only ever
+    # CALLED (never handed on as a callback) is analysed where it is called, with its parameters bound to the arguments
+    only_called = set()
+    lift_bodies = [b for b in fx.fn_bodies() if b.get("hir") and b["def"].startswith("<tc::lift::")]
+    for hb in lift_bodies:
+        if hb.get("impl_self") or str(hb.get("kind", "")).lower() != "fn":
+            continue
+        as_value = as_call = 0
+        for b2 in lift_bodies:
+            for x, xps in F.walk(b2["hir"]["value"]):
+                if x.get("k") == "Path" and x.get("res") == "def" and F.strip_generics(x.get("def") or "") == F.strip_generics(hb["def"]):
+                    if xps and isinstance(xps[-1][0], dict) and xps[-1][0].get("k") == "Call" and xps[-1][1] == "f":
+                        as_call += 1
+                    else:
+                        as_value += 1
+        if as_call and not as_value:
+            only_called.add(hb["def"])
     for b in fx.fn_bodies():
         hir = b.get("hir")
         if not hir:
             continue
+        if b["def"] in only_called:
+            continue
+        if b["def"].startswith("<tc::lift::") and only_called:
+            b = F.inline_module_helpers(fx, b)
+            hir = b["hir"]
         for n, ps in F.walk(hir["value"]):
             if n.get("k") == "Struct" and n.get("adt") == SVD and n.get("variant") in variants:
                 V = n["variant"]
